@@ -244,6 +244,11 @@ def recover_only(R, env, prog, sites, RULE):
             for op in rms:
                 heads = [bi for bi, t_, args in call_sites(h, lambda nm: nm == "std::iter::Iterator::next") if norm(h.T.call_term(t_, bi)) == norm(elem[1])]
                 every = False
+                cbx = prog.body(op["fn"])
+                if not heads and cbx is not None and cbx.kind == "closure" and op.get("bb") is not None:
+                    # `packets.iter().for_each(|p| INFLIGHT_PACKETS.remove(storage, p.sequence))`: the closure runs for every
+                    # element; the removal is on every path through it
+                    every = must_pass(Ctx(cbx), op["bb"])
                 if len(heads) == 1:
                     r_ = set()
                     for s_ in h.body.succs()[heads[0]]:
